@@ -97,7 +97,7 @@ CHECKS["C14"] = dict(
 
 CHECKS["C17"] = dict(
     category="model_checking", design_ref="5 C17",
-    technique="TLA+ bounded-progress predicate (RaftSys.tla ProgressPred) evaluated by TLC on real executions: seeded fault prefix + scripted attack prefixes, then a fair fault-free period on the real raft code; quiesce and the rate limiter: TLA+ specifications (Quiesce.tla, RateLimit.tla) model-checked (resume / release lemmas) and bound to the real objects by trace evaluation; the message queue of a replica (MsgQueue.tla) and the per-target send queue of the transport (SendQueue.tla: a registered queue always has a worker; lossy FIFO without duplication; bounded progress after the connection heals) model-checked and bound to the real server.MessageQueue / transport.Transport the same way",
+    technique="TLA+ bounded-progress predicate (RaftSys.tla ProgressPred) evaluated by TLC on real executions: seeded fault prefix + scripted attack prefixes, then a fair fault-free period on the real raft code; quiesce and the rate limiter: TLA+ specifications (Quiesce.tla, RateLimit.tla) model-checked (resume / release lemmas) and bound to the real objects by trace evaluation; the message queue of a replica (MsgQueue.tla) and the per-target send queue of the transport (SendQueue.tla: a registered queue always has a worker; lossy FIFO without duplication; bounded progress after the connection heals) and the sending side of snapshot transfers (SnapshotSend.tla: every request of raft ends in exactly one truthful status report, the producer of a stream is never left hanging) model-checked and bound to the real server.MessageQueue / transport.Transport the same way",
     text="After a seeded fault prefix (loss, duplication, partitions incl. single cut links, crashes, restarts, membership changes, transfers, snapshots/compaction) every started replica runs, no message is lost, replicas get pairwise distinct election timeouts and a fair scheduler runs 2x40 (thorough 2x60) rounds with a probe proposal and a probe linearizable read at every replica; TLC then requires: a leader exists, every running member is in its term and caught up to its commit index (by log or snapshot), every probe completed. All PreVote/CheckQuorum settings; every step is also checked against Raft.tla. Supporting mechanisms as sequential objects: the real quiesceState (quiesce.go) and the real InMemRateLimiter (internal/server/rate.go) are driven by seeded sequences (ticks, recorded messages, Quiesce messages; sizes around the 70% / 100% thresholds, follower reports, resets); TLC recomputes every step with Quiesce.tla / RateLimit.tla and evaluates the lemmas that MCQuiesce / MCRateLimit establish exhaustively: activity always ends quiesce, a heartbeat wakes a shard that has been quiescent for an election time-out, an idle shard goes quiescent and announces it; rate limiting starts only with cause and is released once sizes are below 70% and the hysteresis window has passed. Real NodeHosts with Config.Quiesce (nhsim mode quiesce, QuiesceHostTrace.tla): after every replica went quiescent, proposals / ReadIndex / membership queries on a connected shard are served (paced attempts, 20 s) and never time out before half of the requested deadline; on a replica whose peers crashed or were partitioned away while the shard slept they end within deadline + 3 s and never complete; after the heal they are served again.",
     note=RAFT_NOTE + " Progress within the stated bound, not unbounded liveness; quiesce and the rate limiter are decided as sequential objects, not inside rsim; replicas whose removal was applied are stopped before the fair period (a removed replica that keeps running disrupts elections without PreVote/CheckQuorum: known Raft behaviour).")
 
@@ -189,8 +189,8 @@ def main():
              "kind_free_text": "TLC exhaustive model checking of MCRaft + TLC trace validation (RaftTrace) of executions of the real internal/raft recorded by the rsim harness"},
             {"name": "tlc+nhsim", "path": "/verif/lib/nhfamily.py", "serves_properties": ["C01", "C03", "C04", "C07", "C08", "C11", "C12", "C16", "C17", "C20"],
              "kind_free_text": "TLC model checking (MCPipeline, MCClientHistory) + TLC evaluation (ClientHistoryTrace, PipelineTrace, SMContractTrace, SnapshotDirTrace, ImportTrace, NodeSafetyTrace, MemberTrace, CompactionTrace, QuiesceHostTrace, RequestsHostTrace) of event streams recorded from in-process clusters of real NodeHosts (harness/root/nhsim_*_test.go)"},
-            {"name": "tlc+qssim/rlsim/mqsim/tqsim", "path": "/verif/lib/c17b.py", "serves_properties": ["C17"],
-             "kind_free_text": "TLC model checking of MCQuiesce / MCRateLimit / MCMsgQueue / MCSendQueue + TLC trace evaluation of the real quiesceState, InMemRateLimiter, server.MessageQueue and the sending side of transport.Transport (harness/root/qssim_test.go, harness/server, harness/transport/tqsim_test.go)"},
+            {"name": "tlc+qssim/rlsim/mqsim/tqsim/tssim", "path": "/verif/lib/c17b.py", "serves_properties": ["C17"],
+             "kind_free_text": "TLC model checking of MCQuiesce / MCRateLimit / MCMsgQueue / MCSendQueue / MCSnapshotSend + TLC trace evaluation of the real quiesceState, InMemRateLimiter, server.MessageQueue and the sending side of transport.Transport (harness/root/qssim_test.go, harness/server, harness/transport/tqsim_test.go, tssim_test.go)"},
             {"name": "tlc+lcsim", "path": "/verif/lib/c11b.py", "serves_properties": ["C11"],
              "kind_free_text": "TLC model checking of MCLifecycle, enumeration of its complete schedules, replay of a seeded sample on the real exec engine (harness/root/lcsim_test.go) judged by LifecycleTrace"},
             {"name": "tlc+spsim", "path": "/verif/lib/c11b.py", "serves_properties": ["C11", "C08"],
